@@ -1,5 +1,6 @@
 import SC.Properties.C20
 import SC.Proofs.SrcLoops
+import SC.Proofs.SrcLoopsB
 /-!
 # C20 — source-level theorems
 
@@ -16,4 +17,8 @@ open Utf8
 theorem source_nonLetterASCII (s : Bytes) (root off : Nat) (h : GoSsa.Heap) (hlen : s.length < 4611686018427387904) :
     GoSsa.Ret Gen.Src.str false Gen.Src.str_nonLetterASCII [.str s root off] h [.bool (A.nonLetterASCII s)] h :=
   GoSsa.Str.nonLetterASCII s root off h hlen
+/-- the same for `bytcase.nonLetterASCII` (`Gen.Src.byt`) -/
+theorem source_nonLetterASCII_bytcase (s : Bytes) (root off : Nat) (h : GoSsa.Heap) (hlen : s.length < 4611686018427387904) :
+    GoSsa.Ret Gen.Src.byt true Gen.Src.byt_nonLetterASCII [.str s root off] h [.bool (A.nonLetterASCII s)] h :=
+  GoSsa.Byt.nonLetterASCII s root off h hlen
 end C20
